@@ -224,6 +224,12 @@ InvBackendsAgree ==
                    /\ ResultFields(Last.runs[i]) = ResultFields(Last.runs[j])
                    /\ \A k \in ResultFields(Last.runs[i]) : Last.runs[i].res[k] = Last.runs[j].res[k]
 
+\* ... and leaves the same stored state on every backend
+InvAuditAgree ==
+    HaveLast => \A i, j \in DOMAIN Last.runs :
+                   (HasField(Last.runs[i], "audit") /\ HasField(Last.runs[j], "audit")) =>
+                      Last.runs[i].audit = Last.runs[j].audit
+
 (* C19                                                                     *)
 C19Ops == {"Export", "Import"}
 InvC19 == ForRuns(LAMBDA e, r :
